@@ -25,7 +25,7 @@ def consumers_table(repo):
             out = []
             for e in n.value.elts:
                 if isinstance(e, ast.Tuple) and len(e.elts) == 2:
-                    chars = try_const(e.elts[0])
+                    chars = try_const(e.elts[0], _class_text_constants(repo))
                     meth = last_attr(e.elts[1])
                     out.append((chars, meth))
             return out, n
@@ -147,7 +147,7 @@ def run(repo, rep, tier):
     regex_node = repo.module_assign("tokenizer.py", "Tokenizer.STRING_REGEXES")
     regex_keys = [try_const(k) for k in regex_node.keys]
     try:
-        enders = try_const(repo.module_assign("tokenizer.py", "Tokenizer.TOKEN_ENDERS"))
+        enders = try_const(repo.module_assign("tokenizer.py", "Tokenizer.TOKEN_ENDERS"), _class_text_constants(repo))
     except AnalysisError:
         enders = None  # the flush may have moved into the consumers: decided per consumer below
 
@@ -199,6 +199,17 @@ def run(repo, rep, tier):
         isinstance(n, ast.Assign) and U(n.targets[0]) == "curr_char" and U(n.value) == "self.formula[self.offset]" for n in body_walk(parse))
     guard_ok = bool(disp_calls) and isinstance(getattr(disp_calls[0], "_parent", None), ast.AugAssign) and any(
         isinstance(n, ast.If) and U(n.test) in guard_txts and any(disp_calls[0] is x for x in ast.walk(ast.Module(body=n.body, type_ignores=[]))) for n in body_walk(parse))
+    if not guard_ok and disp_calls and isinstance(getattr(disp_calls[0], "_parent", None), ast.AugAssign) and isinstance(disp_calls[0].func, ast.Name):
+        # guard clause: ``if f is None: <handle the plain character>; continue`` before ``offset += f()`` in the same block
+        nm_ = disp_calls[0].func.id
+        stmt_ = disp_calls[0]._parent
+        blk_ = getattr(stmt_, "_parent", None)
+        body_ = getattr(blk_, "body", None)
+        if isinstance(body_, list) and stmt_ in body_:
+            for prev_ in body_[: body_.index(stmt_)]:
+                if isinstance(prev_, ast.If) and U(prev_.test) in (f"{nm_} is None", f"not {nm_}") and prev_.body and isinstance(prev_.body[-1], (ast.Continue, ast.Return, ast.Raise)) \
+                        and not prev_.orelse:
+                    guard_ok = True
     rep.ob("C18.R1", disp_calls[0] if disp_calls else parse, "dispatch: offset += dispatcher[formula[offset]]() under `curr_char in dispatcher`, inside the loop", in_loop and key_ok and guard_ok, "",
            key="C18.R1@dispatch-site")
     pre_ok = not direct_calls and not movers and loop_ok and in_loop and key_ok and offset_stable
